@@ -209,7 +209,7 @@ def apply_real(obj, cfg, op, serial):
             alg = (FDD if cfg.cls == "single" else FDD_MS)(name=f"alg{serial}")
             obj.add_algorithms(alg)
         return "ok", alg
-    except (TypeError, ValueError) as e:
+    except (TypeError, ValueError, ZeroDivisionError) as e:
         return type(e).__name__, None
 
 
@@ -273,6 +273,45 @@ def gen_malformed(ctx, cfg):
             {"k": "filter", "Wn": [fs0 * 0.05, fs0 * 0.9], "order": 2, "btype": "bandstop"},
         ]
     )
+
+
+def gen_alphabet_malformed(ctx, cfg):
+    """an alphabet for EXHAUSTIVE enumeration in which half of the calls are ones scipy must reject, several of them only
+    in some states: a breakpoint equal to / one beyond the length the shortest record has after the alphabet's decimation
+    (accepted before it; the second rejected after it), a cut-off that is legal for fs0 but not for fs0/q, unknown keywords,
+    bad ftype / type, wrong Wn arity"""
+    rng = ctx.rng
+    fs0 = cfg.fs0
+    q = rng.choice([2, 3, 4, 5])
+    nq = -(-min(a.shape[0] for a in cfg.arrays) // q)
+    dec_ok = {"k": "decimate", "q": q, "kw": rng.choice([{}, {"ftype": "fir"}, {"n": 4, "zero_phase": False}, {"axis": 0}])}
+    dec_bad = {
+        "k": "decimate",
+        "q": rng.randint(2, 5),
+        "kw": rng.choice([{"bogus": 1}, {"ftype": "cheby", "n": 4}, {"ftype": "fir", "bogus": 1, "axis": 0}, {"ftype": "cheby", "bogus": 1}]),
+    }
+    det_eq = {"k": "detrend", "kw": {"bp": [nq]}}
+    det_over = {"k": "detrend", "kw": rng.choice([{"bp": [nq + 1]}, {"bp": [7, nq + 1], "type": "linear"}, {"bp": nq + 1, "axis": 0}])}
+    det_bad = {
+        "k": "detrend",
+        "kw": rng.choice(
+            [{"bogus": 1}, {"type": "quadratic"}, {"type": "quadratic", "bogus": 1}, {"bp": [10 ** 7]}, {"type": "constant", "bp": [10 ** 7]},
+             {"type": "constant", "bp": [nq + 1]}, {"type": "quadratic", "bp": [10 ** 7]}]
+        ),
+    }
+    # legal for fs0, illegal for fs0/q:  fs0/(2q) < w < fs0/2  (kept 8 % away from both ends)
+    w = fs0 * rng.uniform(0.5 / q * 1.08, 0.5 * 0.92)
+    filt_edge = {"k": "filter", "Wn": [w], "order": rng.choice([None, 2, 3, 4]), "btype": rng.choice(["lowpass", "highpass"])}
+    filt_bad = rng.choice(
+        [
+            {"k": "filter", "Wn": [fs0 * 0.77], "order": 3, "btype": "lowpass"},
+            {"k": "filter", "Wn": [fs0 * 0.1, fs0 * 0.2], "order": 3, "btype": "lowpass"},
+            {"k": "filter", "Wn": [fs0 * 0.1], "order": 3, "btype": "bandpass"},
+            {"k": "filter", "Wn": [-1.0], "order": 2, "btype": "highpass"},
+            {"k": "filter", "Wn": [fs0 * 0.05, fs0 * 0.9], "order": 2, "btype": "bandstop"},
+        ]
+    )
+    return [dec_ok, dec_bad, det_eq, det_over, det_bad, filt_edge, filt_bad, {"k": "rollback"}]
 
 
 def seq_min_len(cfg, seq):
@@ -397,6 +436,9 @@ def corr_sequence(ctx, cfg, seq, te, frozen):
     margs = cfg.model_args()
     mops = [op_to_model(o) for o in seq]
     recs = ctx.model("prep_single" if cfg.cls == "single" else "prep_multi", ops=mops, variant=VARIANT, **margs)
+    # the SPECIFICATION fold of the invariant theorems (right-hand side), for every prefix
+    srecs = ctx.model("prep_spec", n0=[int(a.shape[0]) for a in cfg.arrays], fs0=R(cfg.fs0), ops=mops)
+    py_qs = []  # Python-side bookkeeping: factors of the decimations the REAL object accepted since the start / last rollback
     obj = cfg.make()
     te.next_sequence()
     labels = []
@@ -481,9 +523,64 @@ def corr_sequence(ctx, cfg, seq, te, frozen):
         ctx.count(f"corr_outcome_{outcome}")
         if step:
             ctx.count(f"corr_op_{seq[step - 1]['k']}")
-        if bad:
+        sbad, py_qs = spec_compare(ctx, cfg, obj, te, srecs[step], seq[step - 1] if step else None, outcome, py_qs)
+        ctx.corr(
+            "spec:" + fn,
+            not sbad,
+            {"cfg": cfg.describe(), "ops": seq[:step]},
+            [(b[0], b[2]) for b in sbad],
+            [(b[0], b[1]) for b in sbad],
+            (cfg.cls, cfg.layout, tuple(labels)),
+        )
+        if bad or sbad:
             break  # states have diverged; later comparisons of this sequence carry no information
     ctx.dist["corr_worst_array_rel_diff"] = max(ctx.dist.get("corr_worst_array_rel_diff", 0.0), worst)
+
+
+def spec_compare(ctx, cfg, obj, te, sp, op, outcome, py_qs):
+    """the Lean SPEC fold (`specStep`, `Op.accepted`, `activeQs` - the right-hand side of C14_invariant_*) against the real
+    object directly: its terms evaluated with scipy vs the object's arrays, `Op.accepted` vs whether the real call raised,
+    `activeQs` vs the factors of the decimations the real object accepted, fs vs fs0 / their product"""
+    bad = []
+    if op is not None:
+        if sp["accepted"] != (outcome == "ok"):
+            bad.append(("accepted", outcome, sp["accepted"]))
+        ctx.count("spec_accepted" if sp["accepted"] else "spec_rejected_" + op["k"])
+        if op["k"] == "rollback" and outcome == "ok":
+            py_qs = []
+        elif op["k"] == "decimate" and outcome == "ok":
+            py_qs = py_qs + [op["q"]]
+        if sp["qs"] != py_qs:
+            bad.append(("activeQs", py_qs, sp["qs"]))
+    prod = 1
+    for q in py_qs:
+        prod *= q
+    if not relclose(float(obj.fs), fl(sp["fs"])):
+        bad.append(("fs", float(obj.fs), sp["fs"]))
+    if prod and not relclose(float(obj.fs), cfg.fs0 / prod):
+        bad.append(("fs=fs0/prod(qs)", float(obj.fs), cfg.fs0 / prod))
+    if not relclose(float(obj.dt), 1 / fl(sp["fs"])):
+        bad.append(("dt", float(obj.dt), "1/" + str(sp["fs"])))
+    real = [obj.data] if cfg.cls == "single" else list(obj.datasets)
+    if len(real) != len(sp["terms"]):
+        bad.append(("nterms", len(real), len(sp["terms"])))
+        return bad, py_qs
+    counts = [int(obj.Ndat)] if cfg.cls == "single" else [int(x) for x in obj.Ndats]
+    for i, t in enumerate(sp["terms"]):
+        y = te.ev(t)
+        ok, d = close(real[i], y)
+        if not ok:
+            bad.append((f"terms[{i}]", f"rel diff {d:.3e} shape {np.shape(real[i])}", f"shape {np.shape(y)}"))
+        if counts[i] != y.shape[0]:
+            bad.append((f"count[{i}]", counts[i], y.shape[0]))
+        if cfg.cls == "preger":  # data = pre_multisetup(spec terms, the constructor's ref_ind): split restated here
+            ref = list(cfg.ref_ind[i])
+            mov = [j for j in range(y.shape[1]) if j not in ref]
+            for key, cols in (("ref", ref), ("mov", mov)):
+                ok, d = close(obj.data[i][key], y[:, cols].T)
+                if not ok:
+                    bad.append((f"split[{i}].{key}", f"rel diff {d:.3e}", "spec term split by ref_ind"))
+    return bad, py_qs
 
 
 def enumerate_sequences(alphabet, L):
@@ -503,6 +600,9 @@ def plan(ctx, which):
             cfg = gen_cfg(ctx, cls, n_lo, n_lo + 400, nsets=(2 if ctx.thorough else None), force_unsorted=(cls == "preger"))
             alpha = gen_alphabet(ctx, cfg, 5 ** (L - 1))
             out.append((cfg, alpha, L, "exhaustive"))
+        if which == "corr":  # half of the alphabet are calls scipy must reject (some only in some states)
+            cfg = gen_cfg(ctx, cls, n_lo, n_lo + 400, force_unsorted=(cls == "preger"))
+            out.append((cfg, gen_alphabet_malformed(ctx, cfg), L, "exhaustive-malformed"))
         if ctx.thorough:  # more layouts, exhaustive at length 3
             for _ in range(4):
                 cfg = gen_cfg(ctx, cls, MINLEN * 25 + 40, MINLEN * 25 + 600)
@@ -537,15 +637,15 @@ def correspondence(ctx):
     for cfg, alpha, L, tag in plan(ctx, "corr"):
         te = TermEval(cfg.arrays)
         frozen = [a.copy() for a in cfg.arrays]
-        if tag == "exhaustive":
+        if tag.startswith("exhaustive"):
             seqs = enumerate_sequences(alpha, L)
-            ctx.count(f"corr_exhaustive_L{L}_{cfg.cls}")
+            ctx.count(f"corr_{tag}_L{L}_{cfg.cls}")
             ctx.sample({"cfg": cfg.describe(), "alphabet": alpha, "L": L})
         else:
             seqs = sampled_sequences(ctx, cfg, ctx.n(6, 40), malformed=True)
         for seq in seqs:
             seq = list(seq)
-            if tag == "exhaustive" and (seq_min_len(cfg, seq) < MINLEN or not tie_free(cfg, seq)):
+            if tag.startswith("exhaustive") and (seq_min_len(cfg, seq) < MINLEN or not tie_free(cfg, seq)):
                 ctx.skipped += 1
                 continue
             corr_sequence(ctx, cfg, seq, te, frozen)
